@@ -131,6 +131,33 @@ def run_intersect_case(ctx, case):
             cg = cl
             coarse = dict(coarse, xll=float(cl.xllcorner), yll=float(cl.yllcorner))
             case = dict(case, coarse=coarse)
+    # what the target grid *holds* is irrelevant (a rainfall grid has gaps and fill
+    # values): missing and infinite cells, also where the catchment does not reach
+    if np.dtype(cg.dtype).kind == "f" and (len(cells) + coarse["nrows"]) % 3 == 0 \
+            and not pads:
+        dfill = np.arange(coarse["nrows"] * coarse["ncols"], dtype=float).reshape(
+            (coarse["nrows"], coarse["ncols"]))
+        dfill[::2, ::2] = np.nan
+        dfill[1::3, :] = np.inf
+        dfill[-1, -1] = -np.inf
+        try:
+            cg.data = dfill.astype(cg.dtype)
+            ctx.tag("intersect:target-holds-nan-inf")
+        except Exception:
+            pass
+    # a call that is refused (a grid far away: no overlap) must leave the catchment as
+    # it was for the calls that follow
+    if (len(cells) + coarse["ncols"]) % 4 == 1:
+        far = g.Grid("far", 3, 3, cellsize=coarse["csz"],
+                     xllcorner=fine["xll"] + 1e6 * fine["csz"],
+                     yllcorner=fine["yll"] - 1e6 * fine["csz"])
+        for fl_ in (True, False):
+            try:
+                with warnings.catch_warnings():
+                    warnings.simplefilter("ignore")
+                    cat.intersect(far, filled=fl_)
+            except Exception:
+                ctx.tag("intersect:after-a-refused-call")
     # the same catchment object answers for both cell sets, in any order of asking
     seq = [first, not first, first] if case.get("reuse", True) else [first]
     if case.get("via_sum") and len(cells) >= 2:
